@@ -533,7 +533,9 @@ Definition ismappingtype (t : ity) : res bool :=
   | Raise e => Raise e
   end.
 
-Definition should_unwrap (t : ity) : bool := negb (isliteral t) && (isclassvartype t || isfinal t).
+(* tp.get_origin(obj) is not Literal: only a Literal ITSELF is exempt, a qualifier around one is a wrapper *)
+Definition should_unwrap (t : ity) : bool :=
+  negb (match t with ILiteral _ => true | _ => false end) && (isclassvartype t || isfinal t).
 
 Definition isstdlibsubtype (t : ity) : bool := safe_issubclass (resolve_supertype t) (t_stdlib T).
 Definition isbuiltinsubtype (t : ity) : res bool := issubclass_raw (resolve_supertype t) (t_builtin T).
@@ -604,20 +606,28 @@ Definition isbuiltininstance (t : ity) : bool :=
 Definition isstdlibinstance (t : ity) : bool :=
   match t with IInst c => subclass_any c (t_stdlib T) | _ => false end.
 
-(* unwrap: the loop of the code, one wrapper per iteration (structural) *)
-Fixpoint unwrap (t : ity) {struct t} : res ity :=
-  if should_unwrap t then
-    match t with
-    | IFinal a | IClassVar a => unwrap a          (* t.__args__[0] *)
-    | _ => Raise EAttribute                        (* NewType / alias / bare form has no __args__ *)
-    end
-  else
-    match t with
-    | IAlias _ v => unwrap v
-    | IAliasStr _ s => Ok (IForwardRef s (Some user_module))
-    | INewType _ s => unwrap s
-    | _ => Ok t
-    end.
+(* unwrap: the loop of the code, one wrapper per iteration.  The qualifier step continues with an argument of
+   _resolve_wrappers(t), which is not a syntactic subterm of t for the termination checker: explicit fuel,
+   [Raise EOther] is the out-of-fuel result (unwrap itself never produces it) *)
+Fixpoint unwrap_fuel (n : nat) (t : ity) {struct n} : res ity :=
+  match n with
+  | O => Raise EOther
+  | S k =>
+    let step :=
+      match t with
+      | IAlias _ v => unwrap_fuel k v
+      | IAliasStr _ s => Ok (IForwardRef s (Some user_module))
+      | INewType _ s => unwrap_fuel k s
+      | _ => Ok t
+      end in
+    if should_unwrap t then
+      match dunder_args (resolve_wrappers t) with
+      | Some (x :: _) => unwrap_fuel k x       (* getattr(_resolve_wrappers(t), "__args__", ())[0] *)
+      | _ => step                               (* bare Final / ClassVar: no arguments, fall through *)
+      end
+    else step
+  end.
+Definition unwrap (t : ity) : res ity := unwrap_fuel 200 t.
 
 (* ------------------------------------------------------------------ one entry point per public name *)
 Inductive pred :=
